@@ -122,7 +122,7 @@ def instantiate(ground, schemas, rounds=2, extra_terms=()):
                 continue
             varids = {v.get_id(): v for v in sc.vars}
             bindings = []
-            if sc.triggers:
+            if sc.triggers is not None:
                 for multi in sc.triggers:
                     # multi: list of patterns to be matched jointly
                     partial = [dict()]
